@@ -2,6 +2,8 @@
 # Build the Coq development (full .vo build) and the extracted model driver.
 set -e
 cd "$(dirname "$0")/coq"
+exec 9>.build.lock
+flock 9
 [ -f Makefile ] || coq_makefile -f _CoqProject -o Makefile >/dev/null
 timeout 3000 make -j16 >/dev/null 2>make.err || { cat make.err; exit 2; }
 mkdir -p ../ocaml/gen
